@@ -1624,6 +1624,44 @@ func (f *Frame) execRunDefers(ins *ssa.RunDefers, st *State) {
 func (f *Frame) atReturn(st *State, ins *ssa.Return) {
 	// crash invariants hold at every return
 	f.checkCrashInv(st, ins.Pos(), "return")
+	// assert_at return#k: site assertions at return statements (locals visible, results bound)
+	if f.contract == nil {
+		return
+	}
+	ord := 0
+	for _, b := range f.fn.Blocks {
+		for _, i2 := range b.Instrs {
+			if r, ok := i2.(*ssa.Return); ok {
+				ord++
+				if r == ins {
+					goto found
+				}
+			}
+		}
+	}
+found:
+	for _, c := range f.contract.AssertAt {
+		if c.Callee != "return" || (c.Nth != 0 && c.Nth != ord) {
+			continue
+		}
+		env := f.specEnv(st)
+		rs := f.fn.Signature.Results()
+		for i, r := range ins.Results {
+			t := f.asTerm(f.get(r), rs.At(i).Type(), st)
+			sv := SV{t: t, typ: rs.At(i).Type()}
+			env.names[fmt.Sprintf("result%d", i)] = sv
+			if rs.Len() == 1 {
+				env.names["result"] = sv
+			}
+		}
+		t, err := env.formula(c.Expr)
+		if err != nil {
+			f.eng.specError(f.name, c, err)
+			continue
+		}
+		c.Used = true
+		f.oblige(st, "assert_at", fmt.Sprintf("%s@return%d", c.Label, ord), c.Props, c.Tags, t, ins.Pos(), c.Text)
+	}
 }
 
 func (f *Frame) checkCrashInv(st *State, pos token.Pos, where string) {
